@@ -282,11 +282,12 @@ def job_direct():
     return GlobalIngestData().add_job_info(JOBFILE), JOBFILE
 
 
-def drive_direct(cfg, filterstr, events):
-    """the REAL normalize_phase1 over a stream with one real context; per event: list of returned dicts or enc.Err"""
+def drive_direct(cfg, filterstr, events, loglevel=-1):
+    """the REAL normalize_phase1 over a stream with one real context; per event: list of returned dicts or enc.Err.
+    loglevel: the value of the tool's -D option in force (output is swallowed; the selection may not depend on it)"""
     import aiu_trace_analyzer.logger as aiulog
     from aiu_trace_analyzer.pipeline.normalize import NormalizationContext, EventLimiter, normalize_phase1
-    aiulog.loglevel = -1
+    aiulog.loglevel = loglevel
     outs = []
     with contextlib.redirect_stdout(_quiet), contextlib.redirect_stderr(_quiet):
         try:
@@ -303,6 +304,7 @@ def drive_direct(cfg, filterstr, events):
         del ctx
     _quiet.seek(0)
     _quiet.truncate()
+    aiulog.loglevel = -1
     return outs
 
 
@@ -310,8 +312,8 @@ def outs_val(outs):
     return [o if isinstance(o, enc.Err) else [jv(project(x)) for x in o] for o in outs]
 
 
-def e2e_argv(inp, outp, cfg, filterstr):
-    argv = ["-i", inp, "-o", outp, "--disable_tb", "-t", "-D", "0"]
+def e2e_argv(inp, outp, cfg, filterstr, dlevel=0):
+    argv = ["-i", inp, "-o", outp, "--disable_tb", "-t", "-D", str(dlevel)]
     if cfg is not None:
         argv += ["--event_limit", json.dumps(cfg)]
     if filterstr is not None:
@@ -335,7 +337,7 @@ def file_form(events):
     return out
 
 
-def drive_e2e(work, events, cfg, filterstr, name="c17_e2e.json"):
+def drive_e2e(work, events, cfg, filterstr, name="c17_e2e.json", dlevel=0):
     """write the file, run the REAL Acelyzer in process; returns (uids of exported X events in output order,
     number of input metadata markers found in the output) or enc.Err"""
     import aiu_trace_analyzer.logger as aiulog
@@ -348,8 +350,9 @@ def drive_e2e(work, events, cfg, filterstr, name="c17_e2e.json"):
         os.remove(outp)
     with contextlib.redirect_stdout(_quiet), contextlib.redirect_stderr(_quiet):
         try:
-            ace = Acelyzer(e2e_argv(inp, outp, cfg, filterstr))
-            aiulog.loglevel = -1
+            ace = Acelyzer(e2e_argv(inp, outp, cfg, filterstr, dlevel))
+            if not dlevel:
+                aiulog.loglevel = -1
             rc = ace.run()
             del ace
         except BaseException as ex:  # noqa: BLE001  (SystemExit from argparse included)
@@ -495,7 +498,7 @@ def check_direct(case, outs=None):
     """oracle on the implementation's answer for one direct case -> failure dict or None"""
     events, tags, cfg, flt = case["events"], case["tags"], case["cfg"], case["filter"]
     if outs is None:
-        outs = drive_direct(cfg, flt, events)
+        outs = drive_direct(cfg, flt, events, case.get("loglevel", -1))
     exp = o_expected(events, tags, cfg, flt)
     for i, (e, x, o) in enumerate(zip(events, exp, outs)):
         if x is None:
@@ -516,7 +519,8 @@ def check_direct(case, outs=None):
                     "signature": {"kind": "direct_selection_differs", "expected": x, "observed": obs,
                                   "event_type": e.get("ph"),
                                   "metadata_before": any(y.get("ph") in nct for y in events[:i] if isinstance(y.get("ph"), str)),
-                                  "filter_active": bool(filter_entries(flt))}}
+                                  "filter_active": bool(filter_entries(flt)),
+                                  "loglevel": case.get("loglevel", -1)}}
     return None
 
 
@@ -550,7 +554,7 @@ def check_e2e(case, work, res=None):
     if res is None:
         if case.get("history"):     # replay of a history finding: a limited run first, in this very process
             drive_e2e(work, events, {"skip": 1, "count": 1, "ts_start": 1.0, "ts_end": 2.0}, "name:zzz")
-        res = drive_e2e(work, events, cfg, flt)
+        res = drive_e2e(work, events, cfg, flt, dlevel=case.get("dlevel", 0))
     tags = ["clean"] * len(events)
     exp = o_expected(events, tags, cfg if cfg is not None else {}, flt or "")
     want = sorted(o_uid(e) for e, x in zip(events, exp) if e["ph"] == "X" and x == "keep")
@@ -567,7 +571,8 @@ def check_e2e(case, work, res=None):
                 "observed": {"uids": got, "metadata_events": gm},
                 "signature": {"kind": "e2e_selection_differs", "extra": len(extra), "missing": len(missing),
                               "metadata_lost": (gm is not None and gm < nmeta),
-                              "limit_active": cfg is not None, "filter_active": bool(flt)}}
+                              "limit_active": cfg is not None, "filter_active": bool(flt),
+                              "dlevel": case.get("dlevel", 0)}}
     return None
 
 
@@ -826,6 +831,31 @@ def gen_direct(r, jh, malformed=False):
     return {"mode": "direct", "events": events, "tags": tags, "cfg": cfg, "filter": flt, "malformed": malformed}
 
 
+NUM_SPELLINGS = [1, 1.0, True, "1", 2, 2.0, 0, 0.0, False, "1.0", 10, 1.5, -1, -1.0]
+NUM_RX = ["^1$", "^1.0$", "^1\\.0$", "^True$", "^0$", "1", "\\.", "^2$", "^(1|2)$", "^-1$", "0$", "^.$", "^...$", "e"]
+
+
+def gen_numeric_direct(r, jh):
+    """ORACLE-ONLY direct case (not part of the Coq tie, whose py_str table has no floats): one attribute whose value is
+    the same number in several JSON spellings (1, 1.0, true, "1"), a filter entry that tells their str() apart, and a
+    log level (-D) picked at random: the selection is a function of str(value) and of nothing else"""
+    c = gen_direct(r, jh)
+    key = r.choice(["Iter", "Iter", "step"])
+    for e in c["events"]:
+        if e.get("ph") == "X" and r.random() < 0.85:
+            d = e["attr"] if isinstance(e.get("attr"), dict) and (e["attr"] or "args" not in e) else e.setdefault("args", {})
+            if isinstance(d, dict):
+                d[key] = r.choice(NUM_SPELLINGS)
+    ents = [f"args.{key}:{r.choice(NUM_RX)}"]
+    if r.random() < 0.3:
+        ents.append(gen_filter(r))
+    r.shuffle(ents)
+    c["filter"] = ",".join(x for x in ents if x.strip()) if r.random() < 0.8 else c["filter"]
+    c["loglevel"] = r.choice([-1, 0, 1, 2, 3, 4])
+    c["oracle_only"] = True
+    return c
+
+
 def gen_e2e_events(r):
     """a well-formed single-rank FLEX file: host slices (dur > 0) in a deliberately non-chronological file order,
     metadata interleaved; overlap depth per tid stays small"""
@@ -846,6 +876,8 @@ def gen_e2e_events(r):
             a["flag"] = r.random() < 0.5
         if r.random() < 0.25:
             a["Power"] = r.choice(["0x1f", "31", "n/a"])
+        if r.random() < 0.3:
+            a["Iter"] = r.choice(NUM_SPELLINGS)
         if r.random() < 0.3:
             e["attr"] = a
         else:
@@ -1007,7 +1039,7 @@ def run(ctx):
     jh, jn = job_direct()
     work = tempfile.mkdtemp(prefix="c17_", dir=ctx.work)
     dist = {"direct_events_per_stream": {}, "event_types": {}, "limit_keys": {}, "filter_entries": {},
-            "filter_regexes_with_colon": 0, "filter_paths_below_scalar": 0, "boundary_coincidences": 0, "boundary_grid_cases": 0, "malformed_streams": 0, "impl_exceptions": {}, "e2e_scenarios": 0,
+            "filter_regexes_with_colon": 0, "filter_paths_below_scalar": 0, "boundary_coincidences": 0, "boundary_grid_cases": 0, "malformed_streams": 0, "impl_exceptions": {}, "e2e_scenarios": 0, "e2e_dlevels": {}, "e2e_oracle_only_runs": 0, "numeric_spelling_cases": 0,
             "e2e_runs": 0, "mono_pairs": {"count": 0, "window": 0, "window_binding_skipped": 0}}
     oracle_failures, seen = [], set()
     nontriv = 0
@@ -1057,6 +1089,13 @@ def run(ctx):
                 if isinstance(ts, (int, float)) and isinstance(dur, (int, float)):
                     if c["cfg"].get("ts_start") == ts + dur or c["cfg"].get("ts_end") == ts:
                         dist["boundary_coincidences"] += 1
+        # oracle-only direct cases: number spellings x log level (see gen_numeric_direct)
+        for _ in range(ctx.pick(600, 5000)):
+            c = gen_numeric_direct(r, jh)
+            dist["numeric_spelling_cases"] += 1
+            f = check_direct(c)
+            if f and len(oracle_failures) < 3:
+                oracle_failures.append(shrink(c, check_direct) or f)
         bad, extras, secs = coqrun.run_cases(
             "C17", IMPORTS, "tiein", "run_val", terms, shard=150,
             extra="Definition nt := Eval vm_compute in (count_if nontrivial cases).\nOpen Scope nat_scope.\nPrint nt.")
@@ -1130,10 +1169,20 @@ def run(ctx):
             order = {o_uid(e): i for i, e in enumerate(events)}
             scen += 1
             dist["e2e_scenarios"] += 1
-            for cfg, flt in tuples:
-                case = {"mode": "e2e", "events": events, "cfg": cfg, "filter": flt}
-                res = drive_e2e(work, events, cfg, flt)
+            # oracle-only runs (a float has no entry in the tie's py_str table): a filter on the numeric attribute
+            onum = [(r.choice([None, gen_e2e_cfg(r, events)]), "args.Iter:" + r.choice(NUM_RX), True) for _ in range(2)]
+            for cfg, flt, oonly in [t + (False,) for t in tuples] + onum:
+                # -D: the log level may change what is printed, never what is selected
+                case = {"mode": "e2e", "events": events, "cfg": cfg, "filter": flt, "dlevel": r.choice([0, 0, 0, 1, 2, 3, 4])}
+                res = drive_e2e(work, events, cfg, flt, dlevel=case["dlevel"])
                 dist["e2e_runs"] += 1
+                dist["e2e_dlevels"][case["dlevel"]] = dist["e2e_dlevels"].get(case["dlevel"], 0) + 1
+                if oonly:
+                    dist["e2e_oracle_only_runs"] += 1
+                    f = check_e2e(case, work, res)
+                    if f and len(oracle_failures) < 6:
+                        oracle_failures.append(shrink(case, lambda c: check_e2e(c, work)) or f)
+                    continue
                 if isinstance(res, enc.Err):
                     v = res
                     dist["impl_exceptions"]["e2e:" + res.tag] = dist["impl_exceptions"].get("e2e:" + res.tag, 0) + 1
